@@ -5,7 +5,8 @@ from harness.checks import common
 
 def run(chk):
     chk.rule = ('TLC enumerates trash-empty transitions with --dry-run and/or interactive consent (yes / no reply classes, '
-                'each concretised from a pool of reply strings incl. empty and end of input) over dated seed states, '
+                'each concretised from a pool of reply strings incl. empty and end of input) over dated seed states (one of the '
+                'trash directories possibly an empty skeleton), '
                 'DAYS and --trash-dir; the dry run must leave the projection unchanged and print exactly the set '
                 'EmptyApply removes without --dry-run (paths mapped back to trash slots); a negative answer must leave '
                 'the projection unchanged. non-trivial = printed something or had to refrain')
@@ -13,7 +14,8 @@ def run(chk):
     common.mc(chk, properties=['NoConsentNoChange'])
     common.gen_tt(chk, 'consent', 'Init_Dates', 'Next_EmptyConsent', 10, 3000,
                   strat=lambda g: (g['lab']['opts']['days'], g['lab']['opts']['td'], g['lab']['opts']['dry'],
-                                   g['lab']['opts']['consent'], bool(g['pre']['orph']), bool(g['pre']['strays'])),
+                                   g['lab']['opts']['consent'], bool(g['pre']['orph']), bool(g['pre']['strays']),
+                                   len(set(i['t'] for i in g['pre']['items']))),
                   per_stratum=12, thorough_seeds=1)
     # "a terminal on stdin": no -i on the command line, stdin is a pty, stdout is not
     common.gen_tt(chk, 'consent-tty', 'Init_Dates', 'Next_EmptyConsent', 10, 300 if chk.tier == 'quick' else 4000,
